@@ -22,6 +22,10 @@ class _DispatcherMiddleware:
                 if scope["path"].startswith(path):
                     scope["path"] = scope["path"][len(path) :] or "/"
                     return await app(scope, receive, send)
+            if scope["type"] == "websocket":
+                # http.response messages are not valid for a websocket scope
+                await send({"type": "websocket.close"})
+                return
             await send(
                 {
                     "type": "http.response.start",
